@@ -205,22 +205,24 @@ def WStep (U : Univ W) (w w' : W) : Prop :=
   (∃ i, w' = (U.exec w i).2) ∨ (∃ p, w' = (U.exists_ w p).2)
 
 /-- Facts about CPython's import system that `C07_success_resolves` needs, as explicit hypotheses
-    on the universe.  `known w o`: the object `o` exists in world `w`. -/
-structure Sound (U : Univ W) (known : W → Obj → Prop) : Prop where
+    on the universe.  `inv w`: the world is well formed (an invariant of the import system);
+    `known w o`: the object `o` exists in world `w`. -/
+structure Sound (U : Univ W) (inv : W → Prop) (known : W → Obj → Prop) : Prop where
+  inv_step : ∀ {w w'}, inv w → WStep U w w' → inv w'
   /-- sys.modules entries are never removed or replaced -/
-  mods_mono : ∀ {w w' p o}, WStep U w w' → U.modOf w p = some o → U.modOf w' p = some o
+  mods_mono : ∀ {w w' p o}, inv w → WStep U w w' → U.modOf w p = some o → U.modOf w' p = some o
   /-- attributes are never deleted or rebound -/
-  attr_mono : ∀ {w w' o k v}, WStep U w w' → U.getattr w o k = some v → U.getattr w' o k = some v
-  known_mono : ∀ {w w' o}, WStep U w w' → known w o → known w' o
+  attr_mono : ∀ {w w' o k v}, inv w → WStep U w w' → U.getattr w o k = some v → U.getattr w' o k = some v
+  known_mono : ∀ {w w' o}, inv w → WStep U w w' → known w o → known w' o
   /-- a module that gets registered is a new object -/
-  fresh : ∀ {w w' p o}, WStep U w w' → U.modOf w p = none → U.modOf w' p = some o → ¬ known w o
-  known_attr : ∀ {w o k v}, known w o → U.getattr w o k = some v → known w v
-  exec_known : ∀ {w i o}, (U.exec w i).1 = some o → known (U.exec w i).2 o
+  fresh : ∀ {w w' p o}, inv w → WStep U w w' → U.modOf w p = none → U.modOf w' p = some o → ¬ known w o
+  known_attr : ∀ {w o k v}, inv w → known w o → U.getattr w o k = some v → known w v
+  exec_known : ∀ {w i o}, inv w → (U.exec w i).1 = some o → known (U.exec w i).2 o
   /-- after `import a.b.c`, `a.b.c` is reachable from the object bound to `a` -/
-  plain_sound : ∀ {w p o}, p ≠ [] → (U.exec w ⟨p, p⟩).1 = some o →
+  plain_sound : ∀ {w p o}, inv w → p ≠ [] → (U.exec w ⟨p, p⟩).1 = some o →
     walk U (U.exec w ⟨p, p⟩).2 o [p.headD []] p.tail ≠ .missingAttr
   /-- `from m import n as c` / `import m as c` does not yield the module registered as `c` -/
-  alias_opaque : ∀ {w i o}, i.importAs ≠ i.fullname → (U.exec w i).1 = some o →
+  alias_opaque : ∀ {w i o}, inv w → i.importAs ≠ i.fullname → (U.exec w i).1 = some o →
     U.modOf (U.exec w i).2 i.importAs ≠ some o
 
 /-- every object bound in a namespace exists in the world -/
@@ -228,37 +230,37 @@ def NsKnown (known : W → Obj → Prop) (w : W) (nss : List NS) : Prop :=
   ∀ i k v, (getNs nss i).lookup k = some v → known w v
 
 section
-variable {U : Univ W} {known : W → Obj → Prop} (hS : Sound U known)
+variable {U : Univ W} {inv : W → Prop} {known : W → Obj → Prop} (hS : Sound U inv known)
 include hS
 
-theorem walk_stable {w w' : W} (hstep : WStep U w w') (o : Obj) (p : Dotted) (suf : List Name)
+theorem walk_stable {w w' : W} (hinv : inv w) (hstep : WStep U w w') (o : Obj) (p : Dotted) (suf : List Name)
     (hk : known w o) (h : walk U w o p suf ≠ .missingAttr) : walk U w' o p suf ≠ .missingAttr := by
   induction suf generalizing o p with
   | nil => simp [walk]
   | cons part rest ih =>
     simp only [walk] at h ⊢
     by_cases hm : U.modOf w p = some o
-    · have hm' := hS.mods_mono hstep hm
+    · have hm' := hS.mods_mono hinv hstep hm
       simp only [hm, hm', bne_self_eq_false, Bool.false_eq_true, if_false] at h ⊢
       cases hg : U.getattr w o part with
       | none => simp [hg] at h
       | some v =>
         rw [hg] at h
-        rw [hS.attr_mono hstep hg]
-        exact ih v _ (hS.known_attr hk hg) h
+        rw [hS.attr_mono hinv hstep hg]
+        exact ih v _ (hS.known_attr hinv hk hg) h
     · have hm' : U.modOf w' p ≠ some o := by
         intro hm'
         cases hw : U.modOf w p with
-        | none => exact hS.fresh hstep hw hm' hk
+        | none => exact hS.fresh hinv hstep hw hm' hk
         | some o2 =>
-          have := hS.mods_mono hstep hw
+          have := hS.mods_mono hinv hstep hw
           rw [hm'] at this
           simp at this
           rw [this] at hm
           exact hm hw
       simp [hm']
 
-theorem settles_stable {w w' : W} (hstep : WStep U w w') (d : Dotted) (ns : NS)
+theorem settles_stable {w w' : W} (hinv : inv w) (hstep : WStep U w w') (d : Dotted) (ns : NS)
     (hk : ∀ k v, ns.lookup k = some v → known w v) (h : settles U w d ns = true) :
     settles U w' d ns = true := by
   cases d with
@@ -270,7 +272,7 @@ theorem settles_stable {w w' : W} (hstep : WStep U w w') (d : Dotted) (ns : NS)
     | some v =>
       simp only [hl] at h ⊢
       have h1 : walk U w v [hd] rest ≠ .missingAttr := by simpa using h
-      have := walk_stable hS hstep v [hd] rest (hk hd v hl) h1
+      have := walk_stable hS hinv hstep v [hd] rest (hk hd v hl) h1
       simpa using this
 
 omit hS in
@@ -291,46 +293,49 @@ theorem sni_false_frame {w : W} {nss nss' : List NS} {d : Dotted} (hf : Frame ns
   obtain ⟨i, hi, rfl⟩ := mem_getNs hns
   exact (sni_false_iff U w nss' d).2 ⟨getNs nss' i, getNs_mem (by rw [← hf.1]; exact hi), settles_sub (hf.2 i) hs⟩
 
-theorem sni_false_step {w w' : W} (hstep : WStep U w w') {nss : List NS} {d : Dotted}
+theorem sni_false_step {w w' : W} (hinv : inv w) (hstep : WStep U w w') {nss : List NS} {d : Dotted}
     (hk : NsKnown known w nss) (h : symbolNeedsImport U w nss d = false) :
     symbolNeedsImport U w' nss d = false := by
   obtain ⟨ns, hns, hs⟩ := (sni_false_iff U w nss d).1 h
   obtain ⟨i, hi, rfl⟩ := mem_getNs hns
-  exact (sni_false_iff U w' nss d).2 ⟨_, hns, settles_stable hS hstep d _ (fun k v => hk i k v) hs⟩
+  exact (sni_false_iff U w' nss d).2 ⟨_, hns, settles_stable hS hinv hstep d _ (fun k v => hk i k v) hs⟩
 
-omit hS in
-theorem nsKnown_step (hS : Sound U known) {w w' : W} (hstep : WStep U w w') {nss : List NS}
+theorem nsKnown_step {w w' : W} (hinv : inv w) (hstep : WStep U w w') {nss : List NS}
     (hk : NsKnown known w nss) : NsKnown known w' nss :=
-  fun i k v h => hS.known_mono hstep (hk i k v h)
+  fun i k v h => hS.known_mono hinv hstep (hk i k v h)
 
-/-- along a trace, "needs no import" and "every bound object exists" are preserved -/
+/-- along a trace: the world stays well formed, every bound object exists, and "needs no import"
+    is never un-done -/
 theorem Reach.resolved_stable {P : State W → Import → Nat → Bool → Prop} {a b : State W}
     (h : Reach U P a b) (d : Dotted) :
-    (NsKnown known a.w a.nss → NsKnown known b.w b.nss) ∧
-    (NsKnown known a.w a.nss → symbolNeedsImport U a.w a.nss d = false →
+    (inv a.w → inv b.w) ∧
+    (inv a.w → NsKnown known a.w a.nss → NsKnown known b.w b.nss) ∧
+    (inv a.w → NsKnown known a.w a.nss → symbolNeedsImport U a.w a.nss d = false →
       symbolNeedsImport U b.w b.nss d = false) := by
   induction h with
-  | refl => exact ⟨id, fun _ h => h⟩
+  | refl => exact ⟨id, fun _ h => h, fun _ _ h => h⟩
   | setAtt att _ ih => exact ih
   | doExists p _ ih =>
-    obtain ⟨ih1, ih2⟩ := ih
-    refine ⟨fun hk => nsKnown_step hS (Or.inr ⟨p, rfl⟩) (ih1 hk), fun hk hs => ?_⟩
-    exact sni_false_step hS (Or.inr ⟨p, rfl⟩) (ih1 hk) (ih2 hk hs)
+    obtain ⟨ih0, ih1, ih2⟩ := ih
+    refine ⟨fun hi => hS.inv_step (ih0 hi) (Or.inr ⟨p, rfl⟩),
+      fun hi hk => nsKnown_step hS (ih0 hi) (Or.inr ⟨p, rfl⟩) (ih1 hi hk), fun hi hk hs => ?_⟩
+    exact sni_false_step hS (ih0 hi) (Or.inr ⟨p, rfl⟩) (ih1 hi hk) (ih2 hi hk hs)
   | @tryImp st1 imp tgt loop _ _ ih =>
-    obtain ⟨ih1, ih2⟩ := ih
+    obtain ⟨ih0, ih1, ih2⟩ := ih
     have hs := tryImport_spec U imp tgt loop st1
     obtain ⟨_, hs⟩ := hs
     rcases hs with ⟨_, heq⟩ | ⟨rc, hok, _, hnss, hw, _, _, _⟩
-    · rw [heq]; exact ⟨ih1, ih2⟩
+    · rw [heq]; exact ⟨ih0, ih1, ih2⟩
     · have hstep : WStep U st1.w (tryImport U imp tgt loop st1).2.w := by rw [hw]; exact Or.inl ⟨imp, rfl⟩
       have hframe : Frame st1.nss (tryImport U imp tgt loop st1).2.nss :=
         (Reach.tryImp (U := U) (P := fun _ _ _ _ => True) imp tgt loop (.refl st1) trivial).frame
-      have hkn : NsKnown known st1.w st1.nss → NsKnown known (tryImport U imp tgt loop st1).2.w (tryImport U imp tgt loop st1).2.nss := by
-        intro hk i k v hl
+      have hkn : inv st1.w → NsKnown known st1.w st1.nss →
+          NsKnown known (tryImport U imp tgt loop st1).2.w (tryImport U imp tgt loop st1).2.nss := by
+        intro hinv hk i k v hl
         rw [hnss] at hl
         by_cases hF : rc.Failed
         · rw [hok.failed_same hF, hok.before_eq] at hl
-          exact hS.known_mono hstep (hk i k v hl)
+          exact hS.known_mono hinv hstep (hk i k v hl)
         · cases hres : rc.res with
           | none => exact absurd (Or.inl hres) hF
           | some x =>
@@ -338,7 +343,7 @@ theorem Reach.resolved_stable {P : State W → Import → Nat → Bool → Prop}
             rcases hok.added hF x hres with ⟨_, h2⟩ | ⟨_, h2⟩
             · rw [h2, hok.before_eq] at hl
               by_cases hold : (getNs st1.nss i).lookup k = some v
-              · exact hS.known_mono hstep (hk i k v hold)
+              · exact hS.known_mono hinv hstep (hk i k v hold)
               · -- the new binding
                 have hv : v = x := by
                   by_cases hi : i = tgt
@@ -355,11 +360,11 @@ theorem Reach.resolved_stable {P : State W → Import → Nat → Bool → Prop}
                           simp [List.lookup_cons, this] at hl
                     · rw [addAt_of_ge _ _ _ _ (by omega)] at hl; exact absurd hl hold
                   · rw [getNs_addAt_ne _ _ _ _ _ hi] at hl; exact absurd hl hold
-                rw [hv, hw]; exact hS.exec_known hex
+                rw [hv, hw]; exact hS.exec_known hinv hex
             · rw [h2, hok.before_eq] at hl
-              exact hS.known_mono hstep (hk i k v hl)
-      refine ⟨fun hk => hkn (ih1 hk), fun hk hs => ?_⟩
-      exact sni_false_frame hframe (sni_false_step hS hstep (ih1 hk) (ih2 hk hs))
+              exact hS.known_mono hinv hstep (hk i k v hl)
+      refine ⟨fun hi => hS.inv_step (ih0 hi) hstep, fun hi hk => hkn (ih0 hi) (ih1 hi hk), fun hi hk hs => ?_⟩
+      exact sni_false_frame hframe (sni_false_step hS (ih0 hi) hstep (ih1 hi hk) (ih2 hi hk hs))
 
 end
 
